@@ -12,6 +12,8 @@ mod s_acl;
 mod s_dns;
 mod rig;
 mod s_dnswire;
+mod s_leasedb;
+mod s_radv;
 
 /// Virtual wall clock: when >= 0, every CLOCK_REALTIME read in this process (Rust std and C
 /// libraries alike) returns this many seconds. The symbol overrides libc's at static link time.
@@ -63,6 +65,9 @@ fn run_case(line: &str) -> String {
         "dnsdec" => s_dnswire::dec(args),
         "dnsenc" => s_dnswire::enc(args),
         "inreply" => s_dnswire::inreply(args),
+        "leasedb" => s_leasedb::run(args),
+        "ra" => s_radv::run(args),
+        "icmp6" => s_radv::icmp6(args),
         _ => format!("bad-suite:{}", suite),
     }));
     match r {
